@@ -100,6 +100,32 @@ def leaves(x, path="", seen=None, depth=0):
             yield from leaves(v, f"{path}.{k}", seen, depth + 1)
 
 
+def struct_fields(x, path="", seen=None, depth=0):
+    """(path, owner, attribute) of the object-list fields reachable from x: the instance list of a
+    labelled frame (round 4: `lf.instances = ...` is a change of the labels that no array leaf shows)."""
+    seen = set() if seen is None else seen
+    if id(x) in seen or depth > 8 or \
+            isinstance(x, (torch.Tensor, np.ndarray, str, bytes, int, float, bool, type(None))):
+        return
+    seen.add(id(x))
+    if hasattr(x, "_c11_struct"):
+        for name in x._c11_struct():
+            yield f"{path}.{name}", x, name
+    if isinstance(x, dict):
+        for k, v in x.items():
+            yield from struct_fields(v, f"{path}[{k!r}]", seen, depth + 1)
+    elif isinstance(x, (list, tuple)):
+        for k, v in enumerate(x):
+            yield from struct_fields(v, f"{path}[{k}]", seen, depth + 1)
+    elif hasattr(x, "_c11_children"):
+        for k, v in x._c11_children():
+            yield from struct_fields(v, f"{path}.{k}", seen, depth + 1)
+
+
+def describe_objs(objs):
+    return [("pred" if getattr(o, "predicted", False) else "user") + f"@{id(o) & 0xffff:04x}" for o in objs]
+
+
 def raw_bytes(a) -> bytes:
     if isinstance(a, torch.Tensor):
         a = a.detach().contiguous().cpu().numpy() if a.dtype != torch.bfloat16 else a.float().numpy()
@@ -107,13 +133,18 @@ def raw_bytes(a) -> bytes:
 
 
 class Snapshot:
-    """deep copies of every tensor / array reachable from an object."""
+    """deep copies of every tensor / array reachable from an object, and the identity of the
+    elements of every object-list field (the instance list of a labelled frame)."""
 
     def __init__(self, obj):
         self.items = []
         for path, leaf in leaves(obj):
             copy = leaf.clone() if isinstance(leaf, torch.Tensor) else leaf.copy()
             self.items.append((path, leaf, copy, tuple(leaf.shape), str(leaf.dtype)))
+        self.structs = []
+        for path, owner, name in struct_fields(obj):
+            objs = list(getattr(owner, name))
+            self.structs.append((path, owner, name, objs))       # holds the objects: ids stay unique
 
     def changed(self):
         """[(path, before, after)] for leaves whose bytes / shape / dtype changed."""
@@ -121,6 +152,10 @@ class Snapshot:
         for path, leaf, copy, shape, dtype in self.items:
             if tuple(leaf.shape) != shape or str(leaf.dtype) != dtype or raw_bytes(leaf) != raw_bytes(copy):
                 out.append((path, copy, leaf))
+        for path, owner, name, objs in self.structs:
+            now = list(getattr(owner, name))
+            if [id(o) for o in now] != [id(o) for o in objs]:
+                out.append((path, describe_objs(objs), describe_objs(now)))
         return out
 
     def ranges(self):
@@ -220,6 +255,9 @@ class DFrame:
 
     def _c11_children(self):
         return [("image", self._image)] + [(f"inst{k}", i) for k, i in enumerate(self._all)]
+
+    def _c11_struct(self):
+        return ["instances"]
 
 
 class DSkeleton:
@@ -387,7 +425,11 @@ def gen_chunk_case(rng, name):
     idx = rng.randrange(len(ls["frames"]))
     uo = rng.random() < 0.8
     cons = considered(ls["frames"][idx], uo)
-    if all(is_empty(i) for i in cons):          # process_lf's domain: a non-empty considered instance
+    r = rng.random()
+    if r < 0.08:                                # OUTSIDE process_lf's domain (round 4): the code must raise
+        for i in cons:
+            i["pts"] = [None] * len(i["pts"])
+    elif all(is_empty(i) for i in cons):        # process_lf's domain: a non-empty considered instance
         cons[0]["pts"][0] = [2.0, 3.0]
     H, W = ls["H"], ls["W"]
     mh, mw = rng.choice([(None, None), (None, None), (2 * H, 2 * W), (2 * H, 3 * W), (2 * H, None)])
@@ -400,16 +442,23 @@ def gen_chunk_case(rng, name):
     if name != "single_instance_data_chunks":
         a["max_instances"] = max(len(f["insts"]) for f in ls["frames"])
     if name in ("centroid_data_chunks", "centered_instance_data_chunks"):
-        a["anchor_ind"] = ls["anchor"]
+        a["anchor_ind"] = ls["anchor"] if rng.random() >= 0.04 else ls["n_nodes"]     # 4 %: not a node (IndexError)
     if name == "centered_instance_data_chunks":
         a["crop_size"] = {"t": "tuple", "items": rng.choice([[8, 8], [12, 12]])}
     return {"fn": name, "args": a, "torch_seed": rng.randrange(1 << 30)}
 
 
 def chunk_facts(case):
-    """what the property expects of a chunk call, from the SPEC only: (considered non-empty label
-    instances, eff_scale, scale, max_instances as the function uses it, anchor)"""
+    """what the property expects of a chunk call (or of a process_lf call), from the SPEC only:
+    (considered non-empty label instances, eff_scale, scale, max_instances as the function uses it, anchor)"""
     a = case["args"]
+    if case["fn"] == "process_lf":
+        lf = a["lf"]
+        ls = lf["labels"]
+        fr = ls["frames"][lf["index"]]
+        cons = [i for i in considered(fr, a["user_instances_only"]) if not is_empty(i)]
+        return {"ls": ls, "frame": fr, "cons": cons, "eff": 1.0, "scale": 1.0, "maxi": a["max_instances"],
+                "anchor": None, "uo": a["user_instances_only"]}
     lf = a["x"]["items"][0]
     ls = lf["labels"]
     fr = ls["frames"][lf["index"]]
@@ -423,10 +472,25 @@ def chunk_facts(case):
             "anchor": a.get("anchor_ind"), "uo": a["user_instances_only"]}
 
 
+def chunk_in_domain(case) -> bool:
+    """spec-level domain of a chunk / process_lf call: a non-empty considered instance, and the anchor
+    (centroid / centered-instance chunks) is a node"""
+    f = chunk_facts(case)
+    if not f["cons"]:
+        return False
+    if case["fn"] in ("centroid_data_chunks", "centered_instance_data_chunks") and f["anchor"] is not None:
+        return 0 <= f["anchor"] < f["ls"]["n_nodes"]
+    return True
+
+
+def frame_mixed(fr) -> bool:
+    return any(i["pred"] for i in fr["insts"]) and any(not i["pred"] for i in fr["insts"])
+
+
 def chunk_summary(case, res):
     """JSON-able digest of a chunk result for the comparison with the Coq model"""
     name = case["fn"]
-    s = case["args"]["scale"]
+    s = case["args"].get("scale", 1.0)
     if name == "centered_instance_data_chunks":
         return {"crops": [{"rel": to_json(r["instance"][0] / s - r["centroid"][0]),
                            "cen_nan": bool(torch.isnan(r["centroid"]).any())} for r in res]}
@@ -539,6 +603,12 @@ def gen_dataset_cfg(rng, ls):
 # ----------------------------------------------------------------------------
 # what the property expects of a label set (computed from the spec, never from
 # the possibly-mutated label objects)
+
+def rebound_frames(ls, user_only):
+    """spec-level `map (rebind uo)`: the instance dicts each frame holds after the user filter was applied
+    to the label objects (finding F110)"""
+    return [considered(fr, user_only) for fr in ls["frames"]]
+
 
 def considered(frame, user_only):
     insts = frame["insts"]
